@@ -41,6 +41,14 @@ CHECKS = {
          "Exploration: random histories of up to 60 operations for 8 element types incl. zero-sized and drop-tracked ones; every result, the operands of concat and the number of live tracked elements are compared with the model after each step.",
          "Single-threaded; capacity only checked as >= len; Rust-side contains/index on transformed element types excluded while C15-F2 is open.",
          "DESIGN.md §4 C15"),
+ "C16": ("controlled-schedule exploration: real threads run list operations one at a time under a baton scheduler driven by generated choices (hook verif::sched yields where an operation is outside its critical section); stale-pointer monitor over buffer events + brute-force linearizability check against the shared-vector model",
+         "Exploration: generated (configuration, schedule) pairs for 2-3 threads x up to 3 operations on 2 shared lists at capacity boundaries; a read through a pointer that predates a reallocation is detected from events without performing the read; each observed history must admit a linearization.",
+         "Interleavings only at hook granularity; every reallocation in the pointer window counts as relocation; the two known findings (get's pointer window, concat's two critical sections) are excluded by construction (spare capacity / no switch inside concat).",
+         "DESIGN.md §4 C16"),
+ "C17": ("catalogue of ~85 built-ins x generated semantic arguments; differential against Rust std / inetnum computed in the harness",
+         "Exploration: every built-in of the default runtime is applied by a compiled script to generated Unicode strings, boundary indices, counts, float bit patterns, addresses and prefix lengths, and the result is compared with the documented Rust operation.",
+         "Oracle shares std with the delegating methods (checks binding + the views' hand-written index arithmetic); contested line-slice corner and StringLines.get not judged.",
+         "DESIGN.md §4 C17"),
  "C20": ("generated non-recursive programs; differential between the LIR evaluator (hook verif_eval) and the JIT code built from the same lowered IR; evaluator panics accepted as 'stops loudly'",
          "Exploration / differential: evaluator and compiled code start from the same lowered IR; whenever the evaluator completes, return value and host-call log must match the compiled code.",
          "About half of the generated programs make the evaluator stop loudly (unsupported features); reported in evidence classes.",
@@ -49,7 +57,7 @@ CHECKS = {
          "Exploration: four generators cover literals of every documented form, identifiers in every naming position, comments/whitespace/shebang, and operator precedence/associativity; each compares the compiled script's output with an independently computed value.",
          "Integer spellings within i64; f32 double-rounding spellings discarded; IPv6 text decoded by std.",
          "DESIGN.md §4 C09"),
- "C10": ("exhaustive operator/type/boundary-operand grid + random operands (proptest) in crash-isolated worker processes; survival oracle",
+ "C10": ("exhaustive operator/type/boundary-operand grid + random operands + the built-in catalogue with its widest argument domain (proptest) in crash-isolated worker processes; survival oracle",
          "Exploration: every arithmetic/comparison/compound operator on all 10 numeric types over all pairs of a 15-value boundary set (exhaustive) plus random pairs, each executed in a worker process whose death by signal/abort is the failure signal.",
          "Trusts the driver's classification of worker exit status; operands outside the boundary set are only sampled.",
          "DESIGN.md §4 C10"),
